@@ -17,6 +17,26 @@ Fixpoint evs_of (st : store) (p : list op) : list csevent :=
   | _ :: r => evs_of st r
   end.
 
+(* store failures injected by the program *)
+Definition is_failop (st : store) (o : op) : bool :=
+  match o with OFailNext s => store_eqb s st | _ => false end.
+Definition is_anyfailop (o : op) : bool :=
+  match o with OFailNext _ => true | _ => false end.
+(* the program injects no store failure at all *)
+Definition no_fail (p : list op) : bool := negb (existsb is_anyfailop p).
+(* a failure of store [st] is pending when the first write arrives *)
+Definition fails (st : store) (p : list op) : bool := existsb (is_failop st) (pre p).
+
+Definition is_store (st : store) (o : out) : bool :=
+  match o with TStore s _ => store_eqb s st | _ => false end.
+Definition is_anystore (o : out) : bool :=
+  match o with TStore _ _ => true | _ => false end.
+Definition is_release (o : out) : bool :=
+  match o with THdr _ | TBody _ => true | _ => false end.
+(* the flush error reached the handler: Write returned it / WriteHeader panicked *)
+Definition is_failure (o : out) : bool :=
+  match o with TErr | TPanic => true | _ => false end.
+
 Section WithState.
 Variables sess0 cook0 : amap.
 
@@ -28,26 +48,147 @@ Definition plain (o : op) : list out :=
   | OWriteHeader c _ => [THdr c]
   | OWrite b _ => [TBody b]
   | OGet s k => [TGet s k (getst sess0 cook0 s k)]
+  | OFailNext _ => []
   end.
 
 Definition store_calls (q : list op) : list out :=
   (match evs_of Sess q with [] => [] | l => [TStore Sess l] end) ++
   (match evs_of Cook q with [] => [] | l => [TStore Cook l] end).
 
-(* The whole property in one equation: the trace of a program is the reads of its
-   pre-write prefix, then — only if there is a write — one call per non-empty
-   store (session first) carrying exactly the prefix's events for that store in
-   program order, then everything from the first write on with no store call. *)
+(* The whole property, for programs whose stores do not fail, in one equation: the
+   trace of a program is the reads of its pre-write prefix, then — only if there is
+   a write — one call per non-empty store (session first) carrying exactly the
+   prefix's events for that store in program order, then everything from the first
+   write on with no store call. *)
 Definition c11_spec (p : list op) : list out :=
   flat_map plain (pre p) ++
   (if existsb is_write p then store_calls (pre p) else []) ++
   flat_map plain (post p).
 
-Definition c11_ok (p : list op) (impl_trace : list out) : bool :=
-  trace_eqb impl_trace (c11_spec p).
-End WithState.
+(* ---- the same with failing stores ---- *)
 
-Definition is_store (st : store) (o : out) : bool :=
-  match o with TStore s _ => store_eqb s st | _ => false end.
-Definition is_release (o : out) : bool :=
-  match o with THdr _ | TBody _ => true | _ => false end.
+(* what the handler gets from a write whose flush failed: nothing is released *)
+Definition failmark (w : op) : list out :=
+  match w with OWriteHeader _ _ => [TPanic] | OWrite _ _ => [TErr] | _ => [] end.
+
+(* the call to store [st] made by the first write [w], followed by [k] = what happens
+   when that call succeeds (or is not made because the store has no event) *)
+Definition call (st : store) (p : list op) (w : op) (k : list out) : list out :=
+  match evs_of st (pre p) with
+  | [] => k
+  | l => TStore st l :: (if fails st p then failmark w else k)
+  end.
+
+(* The trace of ANY program: reads of the pre-write prefix; then the first write [w]:
+   the session call, then the cookie call, then [w] itself on the underlying writer —
+   cut short, with the error in place of the release, at the first call that fails;
+   then every later operation with no store call, whether the flush failed or not. *)
+Definition c11_spec_f (p : list op) : list out :=
+  flat_map plain (pre p) ++
+  match post p with
+  | [] => []
+  | w :: r => call Sess p w (call Cook p w (plain w)) ++ flat_map plain r
+  end.
+
+(* ---- the predicate evaluated on the implementation's traces ---- *)
+
+(* the part of a trace strictly after its first element satisfying [a] *)
+Fixpoint after (a : out -> bool) (t : list out) : list out :=
+  match t with [] => [] | o :: r => if a o then r else after a r end.
+
+Fixpoint all2 {A B} (f : A -> B -> bool) (a : list A) (b : list B) : bool :=
+  match a, b with
+  | [], [] => true
+  | x :: a', y :: b' => f x y && all2 f a' b'
+  | _, _ => false
+  end.
+
+Definition isnil {A} (l : list A) : bool := match l with [] => true | _ => false end.
+
+(* each store is called at most once *)
+Definition once_ok (t : list out) : bool :=
+  (length (filter (is_store Sess) t) <=? 1) && (length (filter (is_store Cook) t) <=? 1).
+
+(* a store call carries exactly that store's events of the pre-write prefix, in
+   order, and is not empty *)
+Definition delivered_ok (p : list op) (t : list out) : bool :=
+  forallb (fun o => match o with
+                    | TStore st l => list_eqb csevent_eqb l (evs_of st (pre p)) &&
+                                     negb (isnil l)
+                    | _ => true
+                    end) t.
+
+(* if the handler writes at all, every store with a non-empty pre-write change list
+   is called (whether or not the call then fails) — except the cookie store when the
+   session call failed *)
+Definition sess_call_fails (p : list op) : bool :=
+  negb (isnil (evs_of Sess (pre p))) && fails Sess p.
+Definition complete_ok (p : list op) (t : list out) : bool :=
+  negb (existsb is_write p) ||
+  ((isnil (evs_of Sess (pre p)) || existsb (is_store Sess) t) &&
+   (isnil (evs_of Cook (pre p)) || sess_call_fails p || existsb (is_store Cook) t)).
+
+(* the session call precedes the cookie call *)
+Definition sess_first_ok (t : list out) : bool :=
+  negb (existsb (is_store Sess) (after (is_store Cook) t)).
+
+(* no header or body byte is released before a store call *)
+Definition before_release_ok (t : list out) : bool :=
+  negb (existsb is_anystore (after is_release t)).
+
+(* every read returns the request-start value *)
+Definition reads_ok (t : list out) : bool :=
+  forallb (fun o => match o with
+                    | TGet st k v => obytes_eqb v (getst sess0 cook0 st k)
+                    | _ => true
+                    end) t.
+
+(* store errors are reported where they happen and nowhere else: a store call is
+   immediately followed by TErr/TPanic exactly when a failure of that store was
+   pending, and TErr/TPanic appear in no other position. [prev] = the store called by
+   the previous trace element, if it was a store call. *)
+Definition store_of (o : out) : option store :=
+  match o with TStore st _ => Some st | _ => None end.
+Fixpoint marks_ok (p : list op) (prev : option store) (t : list out) : bool :=
+  match t with
+  | [] => match prev with Some st => negb (fails st p) | None => true end
+  | o :: r =>
+      (match prev with
+       | Some st => Bool.eqb (is_failure o) (fails st p)
+       | None => negb (is_failure o)
+       end) && marks_ok p (store_of o) r
+  end.
+
+(* after a failed flush no store is called: the cookie store is not called after a
+   session error, and no later write delivers the events a second time *)
+Definition not_retried_ok (t : list out) : bool :=
+  negb (existsb is_anystore (after is_failure t)).
+
+(* every header/body write of the program shows up exactly once, in order, either as
+   its own release or — the failed flush — as the error, never both: the write
+   whose flush failed released nothing *)
+Definition is_wout (o : out) : bool := is_release o || is_failure o.
+Definition wmatch (w : op) (o : out) : bool :=
+  match w, o with
+  | OWriteHeader c _, THdr c' => Z.eqb c c'
+  | OWriteHeader _ _, TPanic => true
+  | OWrite b _, TBody b' => beqb b b'
+  | OWrite _ _, TErr => true
+  | _, _ => false
+  end.
+Definition writes_ok (p : list op) (t : list out) : bool :=
+  all2 wmatch (filter is_write p) (filter is_wout t).
+
+Definition c11_ok (p : list op) (impl_trace : list out) : bool :=
+  once_ok impl_trace &&
+  delivered_ok p impl_trace &&
+  complete_ok p impl_trace &&
+  sess_first_ok impl_trace &&
+  before_release_ok impl_trace &&
+  reads_ok impl_trace &&
+  marks_ok p None impl_trace &&
+  not_retried_ok impl_trace &&
+  writes_ok p impl_trace &&
+  (* without injected failures: the whole trace is the equation's *)
+  (if no_fail p then trace_eqb impl_trace (c11_spec p) else true).
+End WithState.
